@@ -106,6 +106,7 @@ inductive SPC where
   | cloneCnt | cloneShard
   | lenShard (i : Nat) | lenCons
   | closedLoad | scLoad
+  | afterClose                         -- τ: `close` returns / `drop` releases the handle
   | fin
   | done
 deriving DecidableEq, Repr
@@ -127,6 +128,7 @@ inductive RPC where
   | closeCas | closeSwap | dropStore
   | lenShard (i : Nat) | lenCons
   | emptyLoad | iscSenders | scLoad | convLoad
+  | release                            -- τ: the receiver handle is released
   | fin
   | done
 deriving DecidableEq, Repr
@@ -416,7 +418,7 @@ def stepS_closeChain (cfg : Cfg) (s : State) (h : Nat) : Option State :=
       let s1 := { s with ch := c }
       if c.ppc h = .idle then
         -- that was `sender_count.fetch_sub`; `== 1` ⇒ wake_all_receivers
-        if s.ch.senders = 1 then some { s1 with spc := upd s.spc h .wLockS } else sAfterClose cfg s1 h
+        some { s1 with spc := upd s.spc h (if s.ch.senders = 1 then .wLockS else .afterClose) }
       else some s1)
   | none => none
 
@@ -477,7 +479,8 @@ def stepS (cfg : Cfg) (s : State) (t h : Nat) : Option State :=
   | .wCntA => some { s with awCnt := 0, spc := upd s.spc h .wWakeA }
   | .wWakeA => stepS_wakeA s h .wUnparkA .wUnlockA
   | .wUnparkA => stepS_unparkA s h .wUnlockA
-  | .wUnlockA => (sAfterClose cfg { s with awLock := none } h)
+  | .wUnlockA => some { s with awLock := none, spc := upd s.spc h .afterClose }
+  | .afterClose => sAfterClose cfg s h
   | .cloneCnt =>
     match s.sop h with
     | .clone h' => (ChainB.step cfg.chain s.ch h (.pClone h')).map (fun c => { s with ch := c, spc := upd s.spc h .cloneShard })
@@ -502,8 +505,8 @@ def rTry (s : State) (form : RForm) (round : Nat) : State :=
   { s with rform := form, rround := round, rout := [], rpc := .pop }
 
 /-- dispatch on the outcome of the try-level receive, per calling form -/
-def triDone (cfg : Cfg) (s : State) (res : TRes) : Option State :=
-  let s := match res with | .ok vs => { s with taken := s.taken ++ vs } | _ => s
+def triDone (s : State) (res : TRes) : Option State :=
+  let s := match res with | .ok vs => { s with taken := s.taken ++ vs, rout := [] } | _ => s
   match s.rform with
   | .try_ => some { s with rres := .got res, rpc := .done }
   | .tmo => some { s with rres := (match res with | .empty => .timeout | r => .got r), rpc := .done }
@@ -526,7 +529,7 @@ def triDone (cfg : Cfg) (s : State) (res : TRes) : Option State :=
   | .drainDrop =>
     match res with
     | .ok vs => some (rTry { s with drained := s.drained ++ vs } .drainDrop 0)
-    | _ => rArcRelease cfg s
+    | _ => some { s with rpc := .release }
 
 def stepR_closedLoad (s : State) : Option State :=
   if s.rclosed then
@@ -547,20 +550,20 @@ def stepR_inPop (cfg : Cfg) (s : State) : Option State :=
       match r with
       | some v => some { s1 with rout := s.rout ++ [v], rpc := .cons }
       | none =>
-        if s.rout ≠ [] then triDone cfg s1 (.ok s.rout)
-        else if s.rround = 1 then triDone cfg s1 .disc
+        if s.rout ≠ [] then triDone s1 (.ok s.rout)
+        else if s.rround = 1 then triDone s1 .disc
         else some { s1 with rpc := .senders })
   | _ =>
     match cNext s.ch with
     | some l => (ChainB.step cfg.chain s.ch 0 l).map (fun c => { s with ch := c })
     | none => none
 
-def stepR_cons (cfg : Cfg) (s : State) : Option State :=
+def stepR_cons (s : State) : Option State :=
   let s1 := { s with consumed := s.consumed + 1 }
-  if s.rout.length < s.rmax then some { s1 with rpc := .pop } else triDone cfg s1 (.ok s.rout)
+  if s.rout.length < s.rmax then some { s1 with rpc := .pop } else triDone s1 (.ok s.rout)
 
-def stepR_senders (cfg : Cfg) (s : State) : Option State :=
-  if s.ch.senders ≠ 0 then triDone cfg s .empty
+def stepR_senders (s : State) : Option State :=
+  if s.ch.senders ≠ 0 then triDone s .empty
   else if s.rround = 2 then some { s with rform := .pollPre, rround := 0, rpc := .pop }
   else some { s with rround := 1, rpc := .pop }
 
@@ -604,8 +607,8 @@ def stepR (cfg : Cfg) (s : State) (t : Nat) : Option State :=
   | .closedLoad => stepR_closedLoad s
   | .pop => stepR_pop cfg s
   | .inPop => stepR_inPop cfg s
-  | .cons => stepR_cons cfg s
-  | .senders => stepR_senders cfg s
+  | .cons => stepR_cons s
+  | .senders => stepR_senders s
   | .gLockS => match s.swLock with | none => some { s with swLock := some t, rpc := .gUnlockS } | some _ => none
   | .gUnlockS => some { s with swLock := none, swSlot := some t, rpc := .gCntS }
   | .gCntS => some { s with swCnt := 1, rpc := .gFence }
@@ -634,6 +637,7 @@ def stepR (cfg : Cfg) (s : State) (t : Nat) : Option State :=
     if s.ch.senders ≠ 0 then some { s with rres := .bool false, rpc := .done } else some { s with rpc := .emptyLoad }
   | .scLoad => some { s with rres := .nat s.ch.senders, rpc := .done }
   | .convLoad => some { s with rres := .unit, rpc := .done }
+  | .release => rArcRelease cfg s
   | .fin => stepR_fin cfg s
 
 def stepAdv (cfg : Cfg) (s : State) (t : Nat) : Option State :=
